@@ -64,6 +64,29 @@ func TestVerifDump(t *testing.T) {
 `,
 }
 
+func init() {
+	Sources["pkg/prebuild"] = `package prebuild
+
+import (
+	"encoding/json"
+	"fmt"
+	"testing"
+)
+
+func TestVerifDump(t *testing.T) {
+	out := map[string]any{
+		"famillyDists":   famillyDists,
+		"supportedDists": supportedDists,
+	}
+	b, err := json.Marshal(out)
+	if err != nil {
+		t.Fatal(err)
+	}
+	fmt.Println("VERIF_TABLES " + string(b))
+}
+` + "\n"
+}
+
 // Load dumps the tables of the given packages and converts them.
 func Load(prog *load.Program, rels []string, scratch string) (map[string]symex.Val, map[string]json.RawMessage, error) {
 	out := map[string]symex.Val{}
